@@ -8,6 +8,7 @@ require (
 	github.com/anishathalye/porcupine v1.3.0
 	github.com/canopy-network/canopy v0.0.0
 	github.com/cockroachdb/pebble/v2 v2.1.6
+	google.golang.org/protobuf v1.36.11
 )
 
 require (
@@ -64,7 +65,6 @@ require (
 	golang.org/x/sync v0.21.0 // indirect
 	golang.org/x/sys v0.46.0 // indirect
 	golang.org/x/text v0.38.0 // indirect
-	google.golang.org/protobuf v1.36.11 // indirect
 	gopkg.in/natefinch/lumberjack.v2 v2.2.1 // indirect
 )
 
